@@ -110,6 +110,7 @@ type op struct {
 	SP  uint64 `json:",omitempty"`
 	Exp int64  `json:",omitempty"` // seed: absolute expiry; ExpRel != 0: relative to the wall clock at execution
 	Rel int64  `json:",omitempty"`
+	D    []string `json:",omitempty"` // svcil: services deleted through REST while the request's own save is parked
 	Wait int   `json:",omitempty"` // milliseconds of real time to let pass before the op (thorough tier: real expiry)
 	Now int64  `json:",omitempty"` // filled in by the run
 	Lo  int64  `json:",omitempty"`
@@ -130,6 +131,13 @@ func (o op) coq() string {
 		return "OGet"
 	case "svc":
 		return fmt.Sprintf("OSvc %s %s %s %s %s %s", sidCoq(o.ID), coqfmt.Z(o.TTL), coqfmt.ZU(o.SP), coqfmt.Z(o.Now), coqfmt.Z(o.Lo), coqfmt.Z(o.Hi))
+	case "svcil":
+		ks := make([]string, len(o.D))
+		for i, d := range o.D {
+			ks[i] = coqfmt.Z(keyNum[d])
+		}
+		return fmt.Sprintf("OSvcIl %s %s %s %s %s %s %s %s", sidCoq(o.ID), coqfmt.Z(o.TTL), coqfmt.ZU(o.SP), coqfmt.Z(o.Now), coqfmt.Z(o.Lo), coqfmt.Z(o.Hi),
+			coqfmt.List(ks), []string{"Ok", "ErrNotApplied", "ErrApplied"}[o.Out])
 	case "apidel":
 		return "OApiDel " + sidCoq(o.ID)
 	case "seed":
@@ -254,6 +262,39 @@ func (w *world) view() string {
 	return "(View " + g + " " + coqfmt.List(w.entries()) + ")"
 }
 
+// restList reads GET /pd/api/v1/gc/safepoint through the real router and checks it against what the storage holds
+func (w *world) restList() {
+	rec := httptest.NewRecorder()
+	w.api.ServeHTTP(rec, httptest.NewRequest(http.MethodGet, "/pd/api/v1/gc/safepoint", nil))
+	raw, _ := w.b.Inner().Load(gcKey)
+	if raw != "" {
+		if _, err := strconv.ParseUint(raw, 16, 64); err != nil {
+			if rec.Code != http.StatusInternalServerError {
+				w.R.Violate("C15:rest-list-differs-from-storage", fmt.Sprintf("unparsable gc/safe_point %q but REST list answered %d", raw, rec.Code), nil)
+			}
+			return
+		}
+	}
+	var got struct {
+		ServiceGCSafepoints []*core.ServiceSafePoint `json:"service_gc_safe_points"`
+		GCSafePoint         uint64                   `json:"gc_safe_point"`
+	}
+	if rec.Code != http.StatusOK || json.Unmarshal(rec.Body.Bytes(), &got) != nil {
+		w.R.Violate("C15:rest-list-differs-from-storage", fmt.Sprintf("REST list answered %d %s", rec.Code, rec.Body.String()), nil)
+		return
+	}
+	want, _ := strconv.ParseUint(raw, 16, 64)
+	all := w.all()
+	same := got.GCSafePoint == want && len(got.ServiceGCSafepoints) == len(all)
+	for i := 0; same && i < len(all); i++ {
+		same = *all[i] == *got.ServiceGCSafepoints[i]
+	}
+	if !same {
+		w.R.Violate("C15:rest-list-differs-from-storage", "REST list: "+rec.Body.String(), nil)
+	}
+	w.R.Count("rest-list:checked")
+}
+
 func (w *world) all() []*core.ServiceSafePoint {
 	all, err := w.st.GetAllServiceGCSafePoints()
 	if err != nil {
@@ -363,6 +404,69 @@ func (w *world) exec(o *op) string {
 			o.Now = find(pre, mid).ExpiredAt - r.GetTTL()
 		}
 		return fmt.Sprintf("BMin %s %s %s", textOf(mid), coqfmt.Z(r.GetTTL()), coqfmt.ZU(r.GetMinSafePoint()))
+	case "svcil":
+		// the request runs on its own goroutine; its own SaveServiceGCSafePoint (the only Save on its key: the id is a
+		// clean, non-gc_worker one) is parked; meanwhile the REST deletes of o.D run; then the save gets outcome o.Out
+		pre := w.all()
+		t0 := w.tsoNow()
+		for t0.Nanosecond() > 900*int(time.Millisecond) {
+			time.Sleep(10 * time.Millisecond)
+			t0 = w.tsoNow()
+		}
+		o.Lo = time.Now().Unix()
+		type sres struct {
+			r   *pdpb.UpdateServiceGCSafePointResponse
+			err error
+		}
+		done := make(chan sres, 1)
+		key := svcPrefix + o.ID
+		go func() {
+			w.b.Bind("svcil")
+			w.b.Arm("svcil", func(x kvx15.Op) bool { return x.Kind == kvx15.Save && x.Key == key }, kvx15.Park)
+			r, err := w.x.S.UpdateServiceGCSafePoint(w.ctx, &pdpb.UpdateServiceGCSafePointRequest{Header: w.x.Header(),
+				ServiceId: []byte(o.ID), TTL: o.TTL, SafePoint: o.SP})
+			w.b.Disarm("svcil")
+			w.b.Unbind()
+			done <- sres{r, err}
+		}()
+		var res sres
+		select {
+		case <-w.b.Parked("svcil"):
+			if !w.x.S.VerifC15ServiceLockHeld() {
+				w.R.Violate("C15:service-update-not-serialised", "SaveServiceGCSafePoint issued without serviceSafePointLock", o)
+			}
+			for _, d := range o.D {
+				rec := httptest.NewRecorder()
+				w.api.ServeHTTP(rec, httptest.NewRequest(http.MethodDelete, "/pd/api/v1/gc/safepoint/"+d, nil))
+			}
+			w.b.Release("svcil", []kvx15.Mode{kvx15.Pass, kvx15.FailBefore, kvx15.FailAfter}[o.Out])
+			res = <-done
+			w.R.Count("svcil:parked-at-own-save")
+		case res = <-done:
+			w.R.Count("svcil:finished-without-own-save")
+		case <-time.After(120 * time.Second):
+			panic("svcil neither parked nor finished")
+		}
+		o.Hi = time.Now().Unix()
+		t1 := w.tsoNow()
+		o.Now = t0.Unix()
+		if res.err != nil || res.r.GetHeader().GetError() != nil {
+			if t0.Unix() != t1.Unix() {
+				w.ambiguous = true
+			}
+			return "BErr"
+		}
+		post := w.all()
+		mid := string(res.r.GetServiceId())
+		switch {
+		case mid == "gc_worker":
+			o.Now = math.MaxInt64 - res.r.GetTTL()
+		case find(post, mid) != nil:
+			o.Now = find(post, mid).ExpiredAt - res.r.GetTTL()
+		case find(pre, mid) != nil:
+			o.Now = find(pre, mid).ExpiredAt - res.r.GetTTL()
+		}
+		return fmt.Sprintf("BMin %s %s %s", textOf(mid), coqfmt.Z(res.r.GetTTL()), coqfmt.ZU(res.r.GetMinSafePoint()))
 	case "apidel":
 		// DELETE /pd/api/v1/gc/safepoint/{service_id} through the real router and handler
 		rec := httptest.NewRecorder()
@@ -402,6 +506,9 @@ func (c caseRec) coq() string {
 }
 
 func (w *world) step(c *caseRec, o op) string {
+	if len(c.Ops)%8 == 7 {
+		w.restList()
+	}
 	if o.Wait > 0 {
 		time.Sleep(time.Duration(o.Wait) * time.Millisecond)
 	}
@@ -691,6 +798,22 @@ func (w *world) genCase(r *rng.R, kind int, maxOps int, lockedMode bool) caseRec
 			case 0:
 				w.step(&c, genSeed(r, odd))
 			case 1:
+				if r.Pct(22) {
+					// a registration with REST deletes slipping in before its save, and/or a failing save
+					o := op{K: "svcil", ID: cleanIDs[r.Intn(len(cleanIDs))], TTL: int64(1000 + r.Intn(9000)), SP: pickSP(r), Out: r.Pick(60, 20, 20)}
+					if r.Pct(15) {
+						o.TTL = pickTTL(r)
+					}
+					for k := r.Intn(3); k > 0; k-- {
+						d := cleanIDs[r.Intn(len(cleanIDs))]
+						if r.Pct(15) {
+							d = "gc_worker"
+						}
+						o.D = append(o.D, d)
+					}
+					w.step(&c, o)
+					return true
+				}
 				w.step(&c, op{K: "svc", ID: pickID(r, odd), TTL: pickTTL(r), SP: pickSP(r)})
 			case 2:
 				// the router only lets a single clean path element through as {service_id}
@@ -836,6 +959,8 @@ func main() {
 				if len(pend) > 0 {
 					overtaken = true
 				}
+			case "svcil":
+				R.Count(fmt.Sprintf("svcil:deletes=%d,outcome=%d", len(o.D), o.Out))
 			case "svc":
 				R.Count("svc-id:" + map[bool]string{true: "clean", false: "odd"}[isClean(o.ID)])
 				switch {
